@@ -115,7 +115,7 @@ static void c13_type(Context& cx)
                     const int pattern = *rc::gen::resize(100, rc::gen::inRange<int>(0, 5));
                     const double p = *rc::gen::elementOf(pts);
                     const int odd = *rc::gen::resize(100, rc::gen::inRange<int>(0, n));
-                    auto rs = *rc::gen::container<std::vector<uint64_t>>((size_t)(2 * n), rc::gen::arbitrary<uint64_t>());
+                    auto rs = *rc::gen::container<std::vector<uint64_t>>((size_t)(2 * n), rc::gen::resize(100, rc::gen::arbitrary<uint64_t>()));
                     int sides = 0;
                     for (int l = 0; l < n; ++l)
                     {
